@@ -56,7 +56,8 @@ CalcRange(t, v, s, k) ==
   ELSE Scan(t, v, s, k, 1, 0, 0)
 
 \* ---------------------------------------------------------------- exploration
-TypeKeys == DOMAIN Types
+\* (value types without sub elements are in the table data for the version-compatibility cases only)
+TypeKeys == {t \in DOMAIN Types : Len(Types[t].children) > 0}
 Focus(t) == {Types[t].focus[i] : i \in 1..Len(Types[t].focus)}
 Vers(t) == {Types[t].vers[i] : i \in 1..Len(Types[t].vers)}
 \* every child name of the listing once: the entry that the name resolves to in v, or (name not available in v) its first entry
